@@ -216,11 +216,19 @@ def blob_id(b: bytes) -> str:
 
 # ====================================================================================== table helpers
 class Tables:
-    def __init__(self, meta):
+    def __init__(self, meta, lay_map=None, kind_map=None):
         self.kinds = meta["kinds"]
         self.layouts = meta["layouts"]
         self.rows = meta["rows"]
         self.meta = meta
+        self.lay_map = lay_map or {}     # live layout index -> index in the generated (Lean) table, None = not there
+        self.kind_map = kind_map or {}   # segment label -> index in the generated kinds table
+
+    def glay(self, idx):
+        return self.lay_map.get(idx)
+
+    def gkind(self, label):
+        return self.kind_map.get(label)
 
     def segs(self, row):
         """[(kind dict, full_image_offset or None for dynamic)] of a row"""
@@ -242,49 +250,78 @@ class Tables:
         return {"zeros": 0x00, "ones": 0xFF}.get(self.layouts[row["layout"]]["pattern"])
 
 
-def crosscheck(meta):
-    """generated tables == live database / classes, else the extractor is out of date -> infrastructure error"""
+def live_meta():
+    """The tables the harness works with, read from the LIVE database / classes only (same shape as the generator's meta): the oracle's
+    expectations and the finding predicates must not depend on generated parts."""
     from spsdk.image.bootable_image import segments as S
     from spsdk.image.bootable_image.bimg import BootableImage
     from spsdk.image.fcb.fcb import FCB
     from spsdk.image.mem_type import MemoryType
     from spsdk.utils.database import DatabaseManager, get_db
-    if meta.get("problems"):
-        raise Infra("BimgTables generator reported unrepresentable rows: " + "; ".join(meta["problems"][:5]))
-    kinds, layouts = meta["kinds"], meta["layouts"]
-    live_classes = S.get_segments()
-    if {c.__name__ for c in live_classes.values()} != {k["cls"] for k in kinds}:
-        raise Infra("segment classes differ from the generated kinds table")
-    for k in kinds:
-        c = getattr(S, k["cls"])
-        got = (c.NAME.label, c.SIZE, c.OFFSET_ALIGNMENT, bool(c.INIT_SEGMENT), bool(c.BOOT_HEADER), list(c.IMAGE_PATTERNS), c.cfg_key(),
-               c.parse_binary.__qualname__.split(".")[0], c.find_segment_offset.__qualname__.split(".")[0], c.__len__.__qualname__.split(".")[0])
-        exp = (k["label"], k["size"], k["align"], k["init_segment"], k["boot_header"], k["patterns"], k["cfg_key"], k["parser"], k["finder"], k["lener"])
-        if got != exp:
-            raise Infra(f"class constants of {k['cls']} differ from the generated table: live {got} generated {exp}")
-    gen = {}
-    for r in meta["rows"]:
-        lay = layouts[r["layout"]]
-        gen[(r["family"], r["revision"], r["mem_type"])] = ([(kinds[k]["label"], off) for k, off in lay["segs"]], lay["pattern"], r["usable"])
-    live = {}
+    kinds = []
+    for c in sorted(S.get_segments().values(), key=lambda c: c.NAME.tag):
+        kinds.append({"cls": c.__name__, "label": c.NAME.label, "tag": c.NAME.tag, "cfg_key": c.cfg_key(), "size": c.SIZE,
+                      "align": c.OFFSET_ALIGNMENT, "init_segment": bool(c.INIT_SEGMENT), "boot_header": bool(c.BOOT_HEADER),
+                      "patterns": list(c.IMAGE_PATTERNS), "parser": c.parse_binary.__qualname__.split(".")[0],
+                      "finder": c.find_segment_offset.__qualname__.split(".")[0], "lener": c.__len__.__qualname__.split(".")[0]})
+    kidx = {k["label"]: i for i, k in enumerate(kinds)}
+    devs = FCB.get_supported_families()
+    fcb_fams = set(devs) | set(DatabaseManager().quick_info.devices.get_predecessors(devs).keys())
+    layouts, lidx, rows = [], {}, []
     for fam in BootableImage.get_supported_families():
+        latest_mts = {m.label for m in BootableImage.get_supported_memory_types(fam)}
         for rev in BootableImage.get_supported_revisions(fam):
             mts = get_db(fam, rev).get_dict(DatabaseManager.BOOTABLE_IMAGE, "mem_types")
             for mt, cfg in mts.items():
-                live[(fam, rev, mt)] = ([(n, o) for n, o in cfg["segments"].items()], cfg.get("image_pattern", "zeros"),
-                                        MemoryType.from_label(mt) in BootableImage.get_supported_memory_types(fam))
-    if gen != live:
-        diff = [k for k in set(gen) | set(live) if gen.get(k) != live.get(k)]
-        raise Infra(f"generated bootable-image rows differ from the live database for {len(diff)} rows, e.g. {sorted(diff)[:3]}: "
-                    f"generated {gen.get(sorted(diff)[0])} live {live.get(sorted(diff)[0])}")
-    devs = FCB.get_supported_families()
-    devs = set(devs) | set(DatabaseManager().quick_info.devices.get_predecessors(devs).keys())
-    if devs != set(meta["fcb_families"]):
-        raise Infra("FCB family list differs from the generated one")
-    if bytes.fromhex(meta["fcb_tag"]) != FCB.TAG or bytes.fromhex(meta["fcb_tag_swapped"]) != FCB.TAG_SWAPPED:
-        raise Infra("FCB tags differ from the generated ones")
-    if [m.label for m in MemoryType] != meta["mem_types"]:
-        raise Infra("MemoryType labels differ from the generated ones")
+                key = (tuple((kidx[n], o) for n, o in cfg["segments"].items()), str(cfg.get("image_pattern", "zeros")))
+                if key not in lidx:
+                    lidx[key] = len(layouts)
+                    layouts.append(key)
+                rows.append({"family": fam, "revision": rev, "mem_type": mt, "layout": lidx[key], "fcb_supported": fam in fcb_fams,
+                             "usable": mt in latest_mts})
+    return {"kinds": kinds, "layouts": [{"segs": [[k, o] for k, o in segs], "pattern": pat} for segs, pat in layouts], "rows": rows,
+            "fcb_tag": FCB.TAG.hex(), "fcb_tag_swapped": FCB.TAG_SWAPPED.hex(), "mem_types": [m.label for m in MemoryType],
+            "fcb_families": sorted(fcb_fams)}
+
+
+def crosscheck(ck, gen, live):
+    """generated tables vs live database / classes.  A difference means the extractor no longer mirrors the loader (or the generated
+    part became unreadable): recorded as a broken obligation (-> no-failing-input-found), never an exception.  Returns the maps
+    live layout index -> generated layout index and kind label -> generated kind index used to address the model driver."""
+    problems = list((gen or {}).get("problems") or [])
+    gen = gen or {"kinds": [], "layouts": [], "rows": []}
+    gk = {k.get("label"): i for i, k in enumerate(gen.get("kinds", []))}
+    keys = ("cls", "label", "cfg_key", "size", "align", "init_segment", "boot_header", "patterns", "parser", "finder", "lener")
+    for k in live["kinds"]:
+        g = gen["kinds"][gk[k["label"]]] if k["label"] in gk else None
+        if g is None or any(g.get(x) != k[x] for x in keys):
+            problems.append(f"class constants of {k['cls']}: live {[k[x] for x in keys]} generated {None if g is None else [g.get(x) for x in keys]}")
+    if len(gen.get("kinds", [])) != len(live["kinds"]):
+        problems.append("number of segment classes differs")
+
+    def norm(meta, lay):
+        try:
+            return (tuple((meta["kinds"][k]["label"], off) for k, off in lay["segs"]), lay["pattern"])
+        except (IndexError, KeyError, TypeError, ValueError):
+            return None
+    gl = {}
+    for i, lay in enumerate(gen.get("layouts", [])):
+        gl.setdefault(norm(gen, lay), i)
+    lay_map = {i: gl.get(norm(live, lay)) for i, lay in enumerate(live["layouts"])}
+    grows = {(r.get("family"), r.get("revision"), r.get("mem_type")): (norm(gen, gen["layouts"][r["layout"]]) if isinstance(r.get("layout"), int)
+             and r["layout"] < len(gen["layouts"]) else None, r.get("fcb_supported"), r.get("usable")) for r in gen.get("rows", [])}
+    lrows = {(r["family"], r["revision"], r["mem_type"]): (norm(live, live["layouts"][r["layout"]]), r["fcb_supported"], r["usable"]) for r in live["rows"]}
+    if grows != lrows:
+        diff = sorted(k for k in set(grows) | set(lrows) if grows.get(k) != lrows.get(k))
+        problems.append(f"{len(diff)} (family, revision, memory type) rows differ, e.g. {diff[:2]}: generated {grows.get(diff[0])} live {lrows.get(diff[0])}")
+    for key in ("fcb_tag", "fcb_tag_swapped", "mem_types", "fcb_families"):
+        if gen.get(key) != live[key]:
+            problems.append(f"{key} differs")
+    if problems:
+        ck.broken.append("generated BimgTables no longer mirrors the live database / segment classes (tools/extract/gen_C14.py vs spsdk): "
+                         + "; ".join(p[:300] for p in problems[:4]))
+        ck.extra["table_crosscheck"] = problems[:20]
+    return lay_map, gk
 
 
 # ====================================================================================== case generation
@@ -659,26 +696,31 @@ def feed(ck, s, drv, T, results):
                 s.expect(False, case, what, obs, exp, finding=finding)
             if drv is None or r["toks"] is None or r["merge"] is None:
                 continue
+            glay = T.glay(r["layout"])
+            if glay is None:   # the row's segment table is not in the generated (Lean) table: nothing to ask the model (crosscheck reported it)
+                s.compare(case, r["merge"], "no-such-layout-in-the-generated-table")
+                continue
             for bid, data in r["blobs"].items():
                 if bid not in defined:
                     defined.add(bid)
-                    reqs.append((None, f"blob {bid} {data.hex()}", "ok", False))
+                    reqs.append((("blob", bid), f"blob {bid} {data.hex()}", "ok", False))
             init = case["init"]
             if isinstance(init, str):
-                kidx = next(i for i, k in enumerate(T.kinds) if k["label"] == init[5:])
                 seg_off = next((off for kd, off in T.segs({"layout": r["layout"]}) if kd["label"] == init[5:]), None)
-                reqs.append((case, f"initk {r['layout']} {kidx}", None, False))
                 init = seg_off if seg_off is not None else 0
             real = r["merge"] + ("|" + r["parse"] if r["parse"] is not None else "")
-            reqs.append((case, f"rt {r['layout']} {int(r['fcb'])} {init} {' '.join(r['toks'])}", real, bool(r.get("finding"))))
+            reqs.append((case, f"rt {glay} {int(r['fcb'])} {init} {' '.join(r['toks'])}", real, bool(r.get("finding"))))
             if r.get("any") is not None and r.get("any_req") is not None:
                 own, lays = r["any_req"]
-                reqs.append((case, f"rtany {int(r['fcb'])} {init} {own} {len(lays)} {' '.join(map(str, lays))} {' '.join(r['toks'])}", r["any"], False))
+                lays = [T.glay(x) for x in lays]
+                if None not in lays:
+                    reqs.append((case, f"rtany {int(r['fcb'])} {init} {own} {len(lays)} {' '.join(map(str, lays))} {' '.join(r['toks'])}", r["any"], False))
     if drv is not None and reqs:
         for (case, line, real, merge_only), ans in zip(reqs, drv.batch([q[1] for q in reqs])):
-            if case is None:
-                if ans != "ok":
-                    raise Infra("model driver refused a blob definition")
+            ans = ans if isinstance(ans, str) else repr(ans)
+            if isinstance(case, tuple) and case and case[0] == "blob":
+                if ans != "ok":   # an unexpected answer is a disagreement, never an exception
+                    s.compare(case, "ok", ans, "model driver does not take a blob definition")
             elif real is not None:
                 if "|" not in real or merge_only:   # no parse on the real side (inadmissible start / known finding): merge part only
                     real, ans = real.split("|")[0], ans.split("|")[0]
@@ -956,14 +998,13 @@ def _tick(ck, name, t0):
 def setup(ck):
     import time
     logging.disable(logging.CRITICAL)
+    ck.spec_ops = set()   # every op of drv_c14 (blob, init, initk, rt, rtany, parse) evaluates Model/Bimg.lean over Generated/BimgTables.lean: none is Spec-only
     t0 = time.time()
     ck.lean_obligations(generated=["BimgTables"])
     drv = ck.driver()
     t0 = _tick(ck, "lean", t0)
-    meta = ck.generated_meta.get("BimgTables")
-    if meta is None:
-        raise Infra("BimgTables meta missing")
-    crosscheck(meta)
+    live = live_meta()
+    lay_map, kind_map = crosscheck(ck, ck.generated_meta.get("BimgTables"), live)
     _tick(ck, "crosscheck", t0)
     ck.assume("segments are supplied as binary files (raw blocks); segments built from YAML configurations of MBI/HAB/AHAB/FCB/XMCD "
               "(length taken from the container object) are not modelled",
@@ -974,7 +1015,7 @@ def setup(ck):
               "assumed to accept what their parsers accepted)",
               "the static database resolution of tools/extract/gen_C14.py mirrors spsdk/utils/database.py (cross-checked against the "
               "live objects on every run; restricted-data/addons overlays are outside the tables)")
-    return drv, Tables(meta)
+    return drv, Tables(live, lay_map, kind_map)
 
 
 def init_stream(ck, drv, T):
@@ -1008,15 +1049,14 @@ def init_stream(ck, drv, T):
                 obj = r[1] if r[0] == "ok" else None
                 req = next((off for kd, off in segs if kd["label"] == v[5:]), None)
                 req = -1 if req is None else req
-                kidx = next(i for i, k in enumerate(T.kinds) if k["label"] == v[5:])
-                line = f"initk {row['layout']} {kidx}"
+                line = f"initk {T.glay(row['layout'])} {T.gkind(v[5:])}"
             else:
                 def setter(val=v):
                     bimg.init_offset = val
                 r = pyres(setter)
                 obj = bimg if r[0] == "ok" else None
                 req = v
-                line = f"init {row['layout']} {v}"
+                line = f"init {T.glay(row['layout'])} {v}"
             s.note(inp, nontrivial=req > 0, cls="by-name" if isinstance(v, str) else ("neg" if v < 0 else "zero" if v == 0 else "pos"))
             if obj is not None:
                 real = f"ok:{obj.init_offset}:" + "".join("1" if sg.excluded else "0" for sg in obj._segments)
@@ -1054,10 +1094,9 @@ def init_stream(ck, drv, T):
             if isinstance(meaning, str):
                 req = next((off for kd, off in segs if kd["label"] == meaning[5:]), None)
                 req = -1 if req is None else req
-                kidx = next(i for i, k in enumerate(T.kinds) if k["label"] == meaning[5:])
-                line = f"initk {row['layout']} {kidx}"
+                line = f"initk {T.glay(row['layout'])} {T.gkind(meaning[5:])}"
             else:
-                req, line = meaning, f"init {row['layout']} {meaning}"
+                req, line = meaning, f"init {T.glay(row['layout'])} {meaning}"
             s.note(inp, nontrivial=req > 0, cls="config/" + ("name" if isinstance(meaning, str) else "str" if isinstance(form, str) else "int"))
             real = (f"ok:{r[1].init_offset}:" + "".join("1" if sg.excluded else "0" for sg in r[1]._segments)) if r[0] == "ok" else r[0]
             exp = None if req < 0 else 0 if req == 0 else min([o for o in statics if o >= req], default=None)
